@@ -36,7 +36,7 @@ def check_all_methods(w, hist, acc, phase, cfg):
     """Every method of both systems on every live state vs a from-scratch state."""
     for sid in sorted(w.states):
         st = w.states[sid]
-        for sysid in ("A", "B"):
+        for sysid in sorted(w.systems):
             system = w.systems[sysid]
             for m in w.methods:
                 acc.count("method_comparisons")
@@ -73,8 +73,48 @@ def make_invariant(spec, conv, d, acc, cfg):
                           kind="operation_raised", observed=msg, expected="no exception",
                           history=hist)
             return
+        # probe suffix 0 (on a world rebuilt from the history, before anything is evaluated here):
+        # the FIRST evaluation of every method happens on a read-only copy; a writable copy of
+        # that copy is then re-assigned and evaluated again
+        w0 = cw.World(spec, conv, d)
+        for op in hist:
+            w0.apply(op)
+        for sid in sorted(w0.states):
+            keep = dict(w0.states)
+            ro = keep[sid].copy(read_only=True)
+            w0.states = {"s2": ro}
+            if not check_all_methods(w0, hist + [["probe-ro-first", sid]], acc, "probe-ro-first",
+                                     cfg):
+                return
+            wr = ro.copy()
+            w0.states = {"s3": wr}
+            for var in ("pos", "mom"):
+                setattr(wr, var, cw.VALS[d][var][1].copy() + 0.0625)
+                if not check_all_methods(w0, hist + [["probe-ro-first", sid],
+                                                     ["probe-copy-then-set", var]], acc,
+                                         "probe-ro-first", cfg):
+                    return
+            break  # the remaining states are related to this one: their first evaluation is over
         if not check_all_methods(w, hist, acc, "saturate", cfg):
             return
+        # probe suffix 3: a system DERIVED from a used one (deep copy / pickle round trip) and then
+        # given another metric shares the states with the original
+        import copy as _copy
+        import pickle as _pk
+        if hasattr(w.systems["A"], "metric") and not callable(getattr(w.systems["A"], "metric")):
+            for how, fn in (("deepcopy", _copy.deepcopy),
+                            ("pickle", lambda x: _pk.loads(_pk.dumps(x)))):
+                try:
+                    D = fn(w.systems["A"])
+                    D.metric = w.systems["B"].metric
+                except Exception:  # noqa: BLE001
+                    continue  # systems built from local functions cannot be pickled
+                w.systems["D"] = D
+                ok = check_all_methods(w, hist + [["probe-derived-system", how]], acc,
+                                       "probe-derived-system", cfg)
+                del w.systems["D"]
+                if not ok:
+                    return
         # probe suffix 1: re-assign each variable of each writable state, then compare again
         def other_value(sid, var):
             cur = getattr(w.states[sid], var)
